@@ -109,3 +109,64 @@ pub struct FixedPoints { _p: u8 }
 impl FixedPoints {
     pub fn symbolic(_g: &SymbolicAsyncGraph, _r: &GraphColoredVertices) -> GraphColoredVertices { unimplemented!() }
 }
+// ---- further API surface (bodies never run); the model gives these functions an EMPTY contract: calls are accepted, nothing is known
+impl Bdd {
+    pub fn not(&self) -> Bdd { unimplemented!() }
+    pub fn or(&self, _o: &Bdd) -> Bdd { unimplemented!() }
+    pub fn and_not(&self, _o: &Bdd) -> Bdd { unimplemented!() }
+    pub fn imp(&self, _o: &Bdd) -> Bdd { unimplemented!() }
+    pub fn xor(&self, _o: &Bdd) -> Bdd { unimplemented!() }
+    pub fn is_true(&self) -> bool { unimplemented!() }
+    pub fn is_false(&self) -> bool { unimplemented!() }
+    pub fn size(&self) -> usize { unimplemented!() }
+    pub fn for_all(&self, _vars: &[BddVariable]) -> Bdd { unimplemented!() }
+    pub fn var_exists(&self, _v: BddVariable) -> Bdd { unimplemented!() }
+    pub fn var_for_all(&self, _v: BddVariable) -> Bdd { unimplemented!() }
+    pub fn var_select(&self, _v: BddVariable, _x: bool) -> Bdd { unimplemented!() }
+    pub fn var_restrict(&self, _v: BddVariable, _x: bool) -> Bdd { unimplemented!() }
+}
+impl BddVariableSet {
+    pub fn num_vars(&self) -> u16 { unimplemented!() }
+    pub fn var_by_name(&self, _name: &str) -> Option<BddVariable> { unimplemented!() }
+    pub fn name_of(&self, _v: BddVariable) -> String { unimplemented!() }
+    pub fn mk_true(&self) -> Bdd { unimplemented!() }
+    pub fn mk_false(&self) -> Bdd { unimplemented!() }
+    pub fn mk_var(&self, _v: BddVariable) -> Bdd { unimplemented!() }
+    pub fn mk_not_var(&self, _v: BddVariable) -> Bdd { unimplemented!() }
+    pub fn mk_literal(&self, _v: BddVariable, _x: bool) -> Bdd { unimplemented!() }
+    pub fn mk_not_var_by_name(&self, _name: &str) -> Bdd { unimplemented!() }
+}
+impl SymbolicContext {
+    pub fn network_variables(&self) -> VariableIdIterator { unimplemented!() }
+    pub fn get_network_variable_name(&self, _v: VariableId) -> String { unimplemented!() }
+    pub fn num_state_variables(&self) -> usize { unimplemented!() }
+    pub fn num_parameter_variables(&self) -> usize { unimplemented!() }
+    pub fn num_extra_state_variables(&self) -> usize { unimplemented!() }
+    pub fn parameter_variables(&self) -> &Vec<BddVariable> { unimplemented!() }
+    pub fn all_extra_state_variables(&self) -> &Vec<BddVariable> { unimplemented!() }
+    pub fn get_state_variable(&self, _v: VariableId) -> BddVariable { unimplemented!() }
+    pub fn get_extra_state_variable(&self, _v: VariableId, _o: usize) -> BddVariable { unimplemented!() }
+    pub fn find_state_variable(&self, _v: BddVariable) -> Option<VariableId> { unimplemented!() }
+    pub fn mk_extra_state_variable_is_true(&self, _v: VariableId, _o: usize) -> Bdd { unimplemented!() }
+}
+impl SymbolicAsyncGraph {
+    pub fn empty_colors(&self) -> &GraphColors { unimplemented!() }
+    pub fn mk_empty_colors(&self) -> GraphColors { unimplemented!() }
+    pub fn unit_colors(&self) -> &GraphColors { unimplemented!() }
+    pub fn empty_colored_vertices(&self) -> &GraphColoredVertices { unimplemented!() }
+    pub fn empty_vertices(&self) -> &GraphVertices { unimplemented!() }
+    pub fn mk_empty_vertices(&self) -> GraphVertices { unimplemented!() }
+    pub fn unit_vertices(&self) -> &GraphVertices { unimplemented!() }
+    pub fn mk_unit_vertices(&self) -> GraphVertices { unimplemented!() }
+    pub fn num_vars(&self) -> usize { unimplemented!() }
+    pub fn fix_network_variable(&self, _v: VariableId, _x: bool) -> GraphColoredVertices { unimplemented!() }
+    pub fn is_trap_set(&self, _s: &GraphColoredVertices) -> bool { unimplemented!() }
+    pub fn restrict_variable_in_graph(&self, _v: VariableId, _x: bool) -> SymbolicAsyncGraph { unimplemented!() }
+}
+impl GraphColoredVertices {
+    pub fn pick_vertex(&self) -> Self { unimplemented!() }
+    pub fn pick_color(&self) -> Self { unimplemented!() }
+    pub fn pick_singleton(&self) -> Self { unimplemented!() }
+    pub fn is_singleton(&self) -> bool { unimplemented!() }
+    pub fn copy(&self, _bdd: Bdd) -> Self { unimplemented!() }
+}
